@@ -53,6 +53,10 @@ partial def pItem : P Item := do
   | "inmac" => do
     let m ← num; let arg ← num; let val ← tok
     pure (.inMacro m arg val (← pItems))
+  | "ae" => do
+    let mode ← tok
+    let m : AE := if mode == "html" then .html else if mode == "json" then .json else .none
+    pure (.autoesc m (← pItems))
   | other => throw s!"bad item tag {other}"
 partial def pItems : P (List Item) := do
   let n ← num
@@ -62,10 +66,12 @@ end
 def pTemplate : P Template := do
   let t ← tok
   if t != "T" then throw "T expected"
+  let ext ← tok
   let layout ← pItems
   let nb ← num
   let blocks ← rep nb (do let n ← num; let b ← pItems; pure (n, b))
-  pure { layout, blocks }
+  -- the template is named `t<i>.<ext>`: its initial mode is what the default callback says
+  pure { layout, blocks, ae := modeOfName ("t." ++ ext) }
 
 def pCase : P Env := do
   let _fam ← tok
@@ -90,6 +96,9 @@ def showErr (e : Err) : String := ">".intercalate (e.map kindName)
     (like the engine's recursion limit) reached only by cycles -/
 def FUEL : Nat := 4000
 
+/-- the render context of the harness (`V0` in `harness/src/bin/c06.rs`) -/
+def V0 : String := "C<&\"'/é0"
+
 def handle (line : String) : String :=
   let case := (line.splitOn "\t").head!
   let toks := (case.splitOn " ").filter (· ≠ "")
@@ -102,8 +111,8 @@ def handle (line : String) : String :=
       | .error e => s!"err:{showErr e}"
     -- third column: the Lean *specification* (`specRender`) when the case lies in the core
     -- fragment for which `blocks_refine_spec` is proved
-    let spec := if decide (EnvOK env) then showRes (specRender env [(0, .str "C0")] FUEL 0) else "n/a"
-    s!"{case}\t{showRes (render env [(0, .str "C0")] FUEL 0)}\t{spec}"
+    let spec := if decide (EnvOK env) then showRes (specRender env [(0, .str V0)] FUEL 0) else "n/a"
+    s!"{case}\t{showRes (render env [(0, .str V0)] FUEL 0)}\t{spec}"
 
 partial def loop (h : IO.FS.Stream) (out : IO.FS.Stream) : IO Unit := do
   let line ← h.getLine
